@@ -306,6 +306,7 @@ pub fn json_stream(r: &mut Rng, n: u64, thorough: bool, out: &mut Out) {
             match r.below(8) {
                 0 => 0,
                 1..=5 => r.range(1, 4),
+                _ if r.chance(1, 10) => *r.pick(&[16u64, 17, 32, 33, 65]),
                 _ => r.range(4, 10),
             }
         } as u32;
